@@ -180,5 +180,26 @@ PlainMsg(x) ==
 
 \* the losses are allowed, not required: what comes back is the value itself or its normal form
 RoundTripOK(s, x, back) == PlainMsg(back) \in {NormMsg(s, x), PlainMsg(x)}
+
+\* Skeleton of a value for the finding D_stdjson_children: the children a message encodes with
+\* encoding/json (flattened fields, members of a discriminated oneof) are reduced to their presence;
+\* everything else - the message's other fields, which oneof member is set, which flattened child is
+\* present - is kept.  Under the finding a round trip must still preserve the skeleton.
+StdJsonField(M, f) == f.ann.flatten \/ (f.oneof # "" /\ \E o \in Range(M.oneofs) : o.name = f.oneof /\ o.hasCfg)
+RECURSIVE SkelVal(_, _, _), SkelMsg(_, _)
+SkelVal(s, f, x) ==
+  CASE x.t = "s"  -> [t |-> "s", tok |-> NormLeaf(f, x)]
+    [] x.t = "l"  -> [t |-> "l", es |-> [i \in DOMAIN x.es |-> SkelVal(s, f, x.es[i])]]
+    [] x.t = "mp" -> [t |-> "mp", es |-> {<<x.es[i].k, SkelVal(s, f, x.es[i].v)>> : i \in DOMAIN x.es}]
+    [] x.t = "m"  -> SkelMsg(s, x)
+SkelMsg(s, x) ==
+  IF "fs" \notin DOMAIN x \/ ~HasMsg(s, x.type) THEN [t |-> "s", tok |-> x.tok]
+  ELSE LET M == MsgByName(s, x.type) IN
+       [t |-> "m", fs |-> { LET f == FieldOf(M, p.name)
+                                lost == p.has /\ p.v.t = "m" /\ p.v.empty /\ f.ann.empty \in {"NULL", "OMIT"}
+                            IN <<p.name, IF p.has /\ ~lost
+                                         THEN (IF StdJsonField(M, f) THEN [t |-> "present"] ELSE SkelVal(s, f, p.v))
+                                         ELSE [t |-> "unset"]>> : p \in Range(x.fs) }]
+RoundTripSkelOK(s, x, back) == SkelMsg(s, x) = SkelMsg(s, back)
 FormOK(s, x, json) == Canon(json) = Enc(s, x)
 =============================================================================
